@@ -380,7 +380,6 @@ impl<T: Clone + Eq + Debug + Default> WrappedBlock<T> {
         );
 
         if !self.word.is_empty() {
-            self.pre_wrapped = false;
             let space_in_line = self.width - self.line.len;
             let space_needed = self.wslen + self.wordlen;
             if space_needed <= space_in_line {
@@ -630,6 +629,11 @@ impl<T: Clone + Eq + Debug + Default> WrappedBlock<T> {
                                 if pos >= self.width {
                                     self.flush_line();
                                     pos = 0;
+                                    if ws_mode == WhiteSpace::Pre {
+                                        // The rest of this source line is a continuation.
+                                        self.pre_wrapped = true;
+                                        tag = wrap_tag;
+                                    }
                                 } else {
                                     self.line.push_char(' ', tag);
                                     pos += 1;
@@ -650,9 +654,10 @@ impl<T: Clone + Eq + Debug + Default> WrappedBlock<T> {
                                         self.pre_wrapped = false;
                                     } else {
                                         // Manual wrapping, keep the space.
+                                        self.pre_wrapped = true;
+                                        tag = wrap_tag;
                                         self.wslen += cwidth;
                                         self.spacetag = Some(tag.clone());
-                                        self.pre_wrapped = true;
                                     }
                                 } else {
                                     self.spacetag = Some(tag.clone());
